@@ -5,6 +5,7 @@ import Driver.App
 import Driver.SflOracle
 import Driver.Symbase
 import Driver.SplitNeutral
+import Driver.Summary
 open Driver
 
 def runLedger (c : Case) : Res :=
@@ -29,6 +30,7 @@ def dispatch (c : Case) : Res :=
   | "app" => runApp c
   | "symbase" => runSymbase c
   | "splitneutral" => runSplitneutral c
+  | "summary" => runSummary c
   | "symparse" => runSymparse c
   | f => { verdict := "BADCASE", msg := s!"unknown family {f}" }
 
